@@ -69,8 +69,15 @@ def _v7(repo, mod):
     return insert_before(mod, s, "_unused = idx")
 
 
-@variant("C18", "public-names-own-only", EX, "C18.public-names", "names the module imported (an enum class) are left out of the import line")
+@variant("C18", "public-names-from-dunder-all", EX, "C18.public-names", "names taken from a declared list that need not exist on the module")
 def _v20(repo, mod):
+    fn = repo.func(EX, "_public_sut_names")
+    r = find_stmt(fn, lambda s: isinstance(s, ast.Return))
+    return replace_node(mod, r.value, 'sorted([name for name in dir(module) if not name.startswith("_") and name != module_alias] + ["main"])')
+
+
+@variant("C18", "twin-public-names-own-only", EX, None, "leaving out names the module merely imported stays silent (the enum / exception imports bind what rendered code needs)")
+def _v20b(repo, mod):
     fn = repo.func(EX, "_public_sut_names")
     r = find_stmt(fn, lambda s: isinstance(s, ast.Return))
     return replace_node(mod, r.value, 'sorted(name for name in dir(module) if not name.startswith("_") and name != module_alias and getattr(getattr(module, name), "__module__", module.__name__) == module.__name__)')
